@@ -166,6 +166,14 @@ def tickMethod (e0 e1 : Int) (count : Rat) : Method :=
     | some (n, k) => .cal (unitOfName n) k
     | none => .cal .year 1
 
+/-- the step of the millisecond / multi-year branch sits on a float threshold tie (see `Scale.tickStepTie`) -/
+def tickTie (e0 e1 : Int) (count : Rat) : Bool :=
+  let target : Rat := ((e1 - e0 : Int) : Rat) / count
+  let i := bisectRight Gen.timeScaleSteps target
+  if i = Gen.timeScaleSteps.length then Scale.tickStepTie (((e1 - e0 : Int) : Rat) / Gen.yearMillis) count
+  else if i = 0 then Scale.tickStepTie ((e1 - e0 : Int) : Rat) count
+  else false
+
 /-- `d3TimeScaleMilliseconds.range` with the integer step of the repaired code -/
 def msRange (t0 t1 : Int) (step : Rat) : List Int :=
   let st : Int := if step.floor < 1 then 1 else step.floor
